@@ -84,7 +84,7 @@ func runC18(c *eng.Ctx) {
 						okd, w := eng.OkDominates(f, elect[0].Instr, s.Instr)
 						okL = okd
 						why = w
-					} else if strings.HasSuffix(p.Desc(ls.Val), "node.ID") {
+					} else if strings.HasSuffix(p.DescUp(eng.Unwrap(ls.Val)), "node.ID") {
 						// start-up: the node that came online; the shard must be one of its replicas
 						rep := p.Sites(f, invokeOn("state", "ReplicasOnNode"))
 						okL = len(rep) == 1 && strings.HasSuffix(p.Desc(eng.CallArgs(rep[0].Instr.(*ssa.Call))[0]), "node.ID") && eng.DominatedBy(f, s.Instr, rep, nil)
@@ -133,7 +133,9 @@ func runC18(c *eng.Ctx) {
 		orderInFn(c, f, invokeOn("", "NodeOffline"), eng.CallTo(smgrT+".onNodeFailure"), "state.NodeOffline", "onNodeFailure")
 		orderInFn(c, f, eng.CallTo(smgrT+".onNodeFailure"), eng.CallTo(smgrT+".syncState"), "onNodeFailure", "syncState")
 		g := c.Fn(smgrT + ".onStorageNodeStartup")
-		orderInFn(c, g, invokeOn("", "NodeOnline"), eng.CallTo(smgrT+".onNodeStartup"), "state.NodeOnline", "onNodeStartup")
+		// state.NodeOnline(node), or its body (LiveNodes[node.ID] = node) written in place
+		online := eng.Any(invokeOn("", "NodeOnline"), eng.MapUpdateOf("models.StorageState.LiveNodes"))
+		orderInFn(c, g, online, eng.CallTo(smgrT+".onNodeStartup"), "state.NodeOnline", "onNodeStartup")
 		orderInFn(c, g, eng.CallTo(smgrT+".onNodeStartup"), eng.CallTo(smgrT+".syncState"), "onNodeStartup", "syncState")
 		// same node id
 		off := c.One(f, invokeOn("", "NodeOffline"), "NodeOffline").Instr.(*ssa.Call)
